@@ -138,10 +138,12 @@ def errors(ctx, plat_, pid, fail_at):
         try:
             getattr(p, m)(*ARGS.get(m, ()))
             exc = None
-        except HarnessError:
-            if lab.ncalls > fail_at:
+        except HarnessError as he:
+            if lab.ncalls > fail_at or "unstubbed native call" in str(he):
+                # the method went on past the probes into natives this lab does not answer, or (fail_at >= 1) needs an answer the lab
+                # does not have before it reaches the call that is to fail: outside the bound
                 ctx.reach("returned-or-needs-more-stubs")
-                return                      # the method went on past the probes into natives this lab does not answer: outside the bound
+                return
             raise
         except Exception as x:  # noqa: BLE001
             exc = x
